@@ -87,4 +87,6 @@ Definition skew_tbl : tbl :=
   let '(skew, _) := fold_range 0 15 skew_m (tempty, temp0) in
   fold_range 0 GF_MODULUS (fun i t => tset t i (glog (tget skew i))) tempty.
 
-Definition skew (i : N) : N := tget skew_tbl i.
+(* SKEW has GF_MODULUS entries; an index beyond it is an out-of-bounds panic in Rust and is
+   never reached inside the supported envelope (value irrelevant; GF_MODULUS = no multiply) *)
+Definition skew (i : N) : N := if i <? GF_MODULUS then tget skew_tbl i else GF_MODULUS.
